@@ -67,3 +67,108 @@ package cache
 //@   props C04 C06
 //@   requires d.parent != nil
 //@   ensures [C06.detached.value] result == ctxValue(d.parent, key)
+
+// ---------------------------------------------------------------------------------------------------
+// trait.go: TTL arithmetic and expiry instants (C10), expirationsSet counter (C11)
+// ---------------------------------------------------------------------------------------------------
+
+// Effective TTL. T := ctx TTL if non-zero, else Config.TimeToLive; Unlimited with no ctx TTL => 0 (never expires).
+// With jitter J in (0,1]: |result - T| <= |T|*J/2 + slack, slack = 1ns (truncation) + |T|*J*2^-50 (float64 rounding).
+// Precondition: |T| <= 50 years, J <= 1 (documented fraction).
+
+//@ func (*Trait).TTL
+//@   props C10
+//@   requires ctx != nil
+//@   let J := c.Config.ExpirationJitter
+//@   let unl := ttlOf(ctx) == 0 && c.Config.TimeToLive == UnlimitedTTL
+//@   let T := ttlOf(ctx) != 0 ? ttlOf(ctx) : c.Config.TimeToLive
+//@   requires J <= 1.0
+//@   requires abs(T) <= 1577880000000000000
+//@   ensures [C10.unlimited] unl ==> result == 0
+//@   ensures [C10.nojitter] !unl && J <= 0.0 ==> result == T
+//@   ensures [C10.eff] !unl && J > 0.0 ==>
+//@       abs(real(result) - real(T)) <= abs(real(T)) * J / 2.0 + 1.0 + abs(real(T)) * J / 1125899906842624.0
+//@   ensures [C11.counter] c.expirationsSet == old(c.expirationsSet) + ((c.Config.TimeToLive == UnlimitedTTL && result != 0) ? 1 : 0)
+//@   ensures [C11.counter.nonneg] old(c.expirationsSet) >= 0 ==> c.expirationsSet >= old(c.expirationsSet)
+//@   modifies H|Trait|.expirationsSet G|cnt|rand G|rand
+//@   replay traitttl ctxttl=ttlOf(ctx) cfgttl=c.Config.TimeToLive jitter=c.Config.ExpirationJitter
+
+// expireAt: E == 0 iff ttl == 0; otherwise E is the clock reading taken inside the call plus ttl.
+
+//@ func (*Trait).expireAt
+//@   props C10
+//@   requires ctx != nil
+//@   let J := c.Config.ExpirationJitter
+//@   let unl := ttlOf(ctx) == 0 && c.Config.TimeToLive == UnlimitedTTL
+//@   let T := ttlOf(ctx) != 0 ? ttlOf(ctx) : c.Config.TimeToLive
+//@   requires J <= 1.0
+//@   requires abs(T) <= 1577880000000000000
+//@   requires old(c.expirationsSet) >= 0 && old(c.expirationsSet) < 4611686018427387904
+//@   ensures [C10.never] result0 == 0 ==> result1 == 0
+//@   ensures [C10.instant] result0 != 0 ==> clockReads() == 1 && result1 == now(1) + result0
+//@   ensures [C10.unlimited2] unl ==> result0 == 0
+//@   ensures [C10.nojitter2] !unl && J <= 0.0 ==> result0 == T
+//@   ensures [C10.eff2] !unl && J > 0.0 ==>
+//@       abs(real(result0) - real(T)) <= abs(real(T)) * J / 2.0 + 1.0 + abs(real(T)) * J / 1125899906842624.0
+//@   ensures [C11.counter2] c.expirationsSet == old(c.expirationsSet) + ((c.Config.TimeToLive == UnlimitedTTL && result0 != 0) ? 1 : 0)
+//@   modifies H|Trait|.expirationsSet G|cnt|rand G|rand G|clock G|clk G|nclk
+
+// ts / tsTime: the stored timestamp and the reported time.Time denote the same instant (ns since the epoch).
+
+//@ func ts
+//@   props C10
+//@   requires abs(t) < 9223372036854775807
+//@   ensures [C10.ts] result == t
+
+//@ func tsTime
+//@   props C10
+//@   ensures [C10.roundtrip] result == ns
+
+//@ func (TraitEntry).ExpireAt
+//@   props C10
+//@   ensures [C10.walk.expireat] result == e.E
+
+//@ func (errExpired).ExpiredAt
+//@   props C10
+//@   requires e.entry != nil
+//@   ensures [C10.err.expiredat] result == e.entry.E
+
+// ---------------------------------------------------------------------------------------------------
+// invalidator.go: Invalidator (C17)
+// ---------------------------------------------------------------------------------------------------
+
+//@ type Invalidator
+//@   props C17 C16
+//@   interference
+//@   guardedby lastRun Mutex
+//@   guardedby SkipInterval Mutex
+//@   calloutunder Callbacks[] Mutex
+//@   lockinv Mutex [C17.lockinv] self.lastRun <= lastNow() && self.SkipInterval >= 0
+
+// Invalidate. All values are taken at the moment the mutex is acquired (locked(..)): other goroutines may have run
+// Invalidate between the call and the lock. Rejected calls run nothing and keep lastRun; accepted calls run every
+// callback once, in order, under the mutex, and are spaced >= SkipInterval apart (two clock readings: now(1) for
+// the check, now(2) stored). The lock invariant lastRun <= clock makes "spaced apart" meaningful.
+
+//@ func (*Invalidator).Invalidate
+//@   props C17
+//@   requires forall j int :: 0 <= j && j < len(i.Callbacks) ==> i.Callbacks[j] != nil
+//@   let cbs := old(i.Callbacks)
+//@   let last := locked(i.lastRun)
+//@   let skip := locked(i.SkipInterval) == 0 ? 15000000000 : locked(i.SkipInterval)
+//@   let since := now(1) - last
+//@   ensures [C17.nothing] cbs == nil ==> result == ErrNothingToInvalidate && calls("Invalidator.Callbacks[]") == 0
+//@       && clockReads() == 0
+//@   ensures [C17.outcomes] cbs != nil ==> result == nil || errIs(result, ErrAlreadyInvalidated)
+//@   ensures [C17.interval] cbs != nil ==> i.SkipInterval == skip && skip > 0
+//@   ensures [C17.rejected] cbs != nil && result != nil ==> calls("Invalidator.Callbacks[]") == 0 && i.lastRun == last
+//@   ensures [C17.accepted] cbs != nil && result == nil ==> i.lastRun == now(2) && now(2) >= now(1)
+//@       && (last >= 0 ==> now(1) >= last + skip)
+//@   ensures [C17.progress] cbs != nil && min(since, MaxInt64) > skip ==> result == nil
+//@   ensures [C17.all] cbs != nil && result == nil ==> calls("Invalidator.Callbacks[]") == len(cbs)
+//@   ensures [C17.order] cbs != nil && result == nil ==>
+//@       forall j int :: 0 <= j && j < len(cbs) ==> arg("Invalidator.Callbacks[]", j + 1, 0) == cbs[j]
+//@   loop 1 invariant [C17.inv.bounds] -1 <= rangeindex && rangeindex < len(cbs)
+//@   loop 1 invariant [C17.inv.calls] calls("Invalidator.Callbacks[]") == rangeindex + 1
+//@   loop 1 invariant [C17.inv.order] forall j int :: 0 <= j && j <= rangeindex ==>
+//@       arg("Invalidator.Callbacks[]", j + 1, 0) == cbs[j]
